@@ -166,12 +166,29 @@ Fixpoint w_run (st : wstate) (ops : list wop) : res wstate :=
   | o :: r => let* st' := w_step st o in w_run st' r
   end.
 
+(* the same run, keeping the state in which an operation failed.  close() checks the announced count
+   BEFORE it touches the file (OpCount: `elif self._natoms != self._current_atom: raise IOError`), and
+   OpSeek raises before seeking, so for a failing close the bytes on disk are those of the last good state.
+   (Not used for a failing record write, which may leave the header behind.) *)
+Fixpoint w_run_keep (st : wstate) (ops : list wop) : wstate * option err :=
+  match ops with
+  | [] => (st, None)
+  | o :: r => match w_step st o with
+              | Ok st' => w_run_keep st' r
+              | Err e => (st, Some e)
+              end
+  end.
+
 Definition close_ops : list wop := [OpCount; OpSeek; OpBox].
 Definition write_ops (recs : list grec) : list wop := map OpRec recs ++ close_ops.
 
 (* the bytes on disk after the given operations (every operation flushed) *)
 Definition file_after (c : wconf) (ops : list wop) : res bytes :=
   let* st0 := w_start c in let* st := w_run st0 ops in Ok (wf st).
+(* the bytes left on disk by a run whose close() may fail, and the exception it failed with *)
+Definition file_left (c : wconf) (ops : list wop) : res (bytes * option err) :=
+  let* st0 := w_start c in
+  let (st, e) := w_run_keep st0 ops in Ok (wf st, e).
 Definition write_gro (c : wconf) (recs : list grec) : res bytes :=
   file_after c (write_ops recs).
 
